@@ -245,7 +245,7 @@ def variant(rng, t):
     return mutate_one(rng, t)
 
 
-REPRS = ["-", "-", "h", "k", "hk"]
+REPRS = ["-", "-", "h", "k", "hk", "p", "hp"]    # p: the global string hash is switched between build and copy (round-7 seed C09-12)
 
 # fixed universe: all ordered pairs are compared
 UNIVERSE = [
